@@ -6,6 +6,8 @@ import (
 	"io"
 
 	"github.com/oneconcern/datamon/pkg/cafs"
+	"github.com/oneconcern/datamon/pkg/core"
+	"github.com/spf13/afero"
 
 	"verifsim/refmodel"
 	"verifsim/simkit"
@@ -347,5 +349,72 @@ func runC03Enum(rc *RunCtx) *simkit.Violation {
 		}
 		blob.Damage(m.key, saved[m.key])
 	}
+	return nil
+}
+
+func init() {
+	Register(&Scenario{Prop: "C03", Name: "rot-download", Strict: true, Quick: 6, Thorough: 8, Run: runC03Download})
+}
+
+// runC03Download: a bundle is uploaded, one blob of one of its files is damaged at rest, then the
+// bundle is downloaded into a local directory. A download that reports success must have written
+// exactly the uploaded bytes.
+func runC03Download(rc *RunCtx) *simkit.Violation {
+	const prop = "C03"
+	w := rc.W
+	t := w.W
+	d := newDM(rc)
+	up := w.Client("up")
+	if v := createRepo(prop, d, up, "r1"); v != nil {
+		return v
+	}
+	leaf := uint32(t.Pick(64, 100, 1024, 4096))
+	tree := drawTree(t, t.Range(1, 5), leaf, "")
+	src := memDisk()
+	_ = writeTree(src, tree)
+	_, ufn := d.upload(up, d.Stores(up), "r1", src, uploadOpts{leaf: leaf, concUp: t.Pick(1, 4, 20), message: "m"})
+	ut, v := doOp(prop, w, up, "upload", ufn)
+	if v != nil {
+		return v
+	}
+	if ut.Err != nil {
+		return Viol(prop, "harness", "upload", "", "fault-free upload failed: %v", ut.Err)
+	}
+	ub := ut.Result.(*core.Bundle)
+	// damage one blob of one file
+	ps := tree.paths()
+	victim := ps[t.Choose(len(ps))]
+	other := ps[t.Choose(len(ps))]
+	leaves, root := blobLayout(tree[victim], leaf)
+	oLeaves, oRoot := blobLayout(tree[other], leaf)
+	m := drawRot(t, d.Blob, leaves, root, oLeaves, oRoot)
+	same := m.data != nil && bytes.Equal(d.Blob.Peek(m.key).Data, m.data)
+	d.Blob.Damage(m.key, m.data)
+	w.Probe("nontrivial")
+	w.Note("bundle of %d files leaf %d; file %q (%d bytes): %s", len(tree), leaf, victim, len(tree[victim]), m.desc)
+	rd := w.Client("down")
+	useOs := t.Bool(1, 4)
+	var dst afero.Fs = memDisk()
+	if useOs {
+		dst = afero.NewBasePathFs(afero.NewOsFs(), rc.Dir)
+	}
+	_, pfn := d.downloadFn(d.Stores(rd), "r1", ub.BundleID, dst, downloadOpts{concDown: t.Pick(1, 3, 10)})
+	pt, v := doOp(prop, w, rd, "publish", pfn)
+	if v != nil {
+		return v
+	}
+	got, err := readTree(dst)
+	if err != nil {
+		return Viol(prop, "harness", "readTree", "", "%v", err)
+	}
+	data, _ := splitMeta(got)
+	if pt.Err != nil {
+		w.Probe("download-failed")
+		return nil
+	}
+	if df := diffTrees(tree, data); df != "" {
+		return Viol(prop, "corrupt-download-accepted", "Publish", victim, "the download reported success but the destination differs from the uploaded tree: %s; damage to %q: %s (identity=%v, os-disk=%v)", df, victim, m.desc, same, useOs)
+	}
+	w.Probe("download-legitimately-ok")
 	return nil
 }
